@@ -169,6 +169,25 @@ DoOp(x, opnds) ==
   IN [x3 EXCEPT !.op[o] = [alive |-> TRUE, vars |-> ts, out |-> t,
                            refs |-> IF x.guard THEN Append(refs0, out) ELSE <<>>, guarded |-> x.guard]]
 
+\* a non-view operation writing into a user-supplied ndarray:  f(..., out=<array>).  The result tensor wraps the
+\* user's array itself; the array (and its base, if it is a view) is locked like any output.
+DoOpOut(x, opnds, outa) ==
+  LET w == WrapOperands(x, opnds, <<>>)
+      x0 == w.x ts == w.ts
+      refs0 == IF x.guard THEN UAB(x0, ts, {}) ELSE <<>>
+      x1 == LockAll(x0, refs0)
+      o == Pick(FreeO(x1)) t == Pick(FreeT(x1))
+      own == x1.arr[outa].owner
+      x2 == [x1 EXCEPT !.ten[t] = [alive |-> TRUE, arr |-> outa, creator |-> o, base |-> 0, held |-> TRUE],
+                        !.arr[outa].touched = TRUE]
+      x3 == IF x.guard /\ own # 0 THEN [Lock(x2, own, FALSE) EXCEPT !.arr[own].touched = TRUE] ELSE x2
+      x4 == IF x.guard THEN Lock(x3, outa, FALSE) ELSE x3
+      refs == IF x.guard THEN refs0 \o (IF own # 0 THEN <<own>> ELSE <<>>) \o <<outa>> ELSE <<>>
+  IN \* locking the inputs may have made the target read-only (it is, or aliases, an input): NumPy then refuses
+     \* to write into it, the forward pass raises, and the statement is a failed operation
+     IF ~x1.arr[outa].w THEN Collect(ReleaseAll(x1, refs0)) ELSE
+     [x4 EXCEPT !.op[o] = [alive |-> TRUE, vars |-> ts, out |-> t, refs |-> refs, guarded |-> x.guard]]
+
 \* a view operation on tensor p (basic indexing ...): the result's array is a NumPy view of p's array
 DoView(x, p) ==
   LET ts == <<p>>
@@ -209,6 +228,7 @@ Apply(x, e) ==
     [] e.k = "freeze" -> Freeze(x, e.a)
     [] e.k = "wrap"   -> Wrap(x, e.a)
     [] e.k = "op"     -> DoOp(x, e.ins)
+    [] e.k = "opout"  -> DoOpOut(x, e.ins, e.out)
     [] e.k = "view"   -> DoView(x, e.t)
     [] e.k = "fail"   -> FailOp(x, e.ins)
     [] e.k = "clear"  -> Clear(x, e.t)
@@ -229,6 +249,12 @@ Stmts(x) ==
   \cup (IF "op" \in Alphabet /\ Room(x, 1, 3, 1) THEN
           {[k |-> "op", ins |-> <<p>>] : p \in Operands(x)}
           \cup {[k |-> "op", ins |-> <<p, q>>] : p \in Operands(x), q \in Operands(x)} ELSE {})
+  \cup (IF "opout" \in Alphabet /\ Room(x, 0, 3, 1) THEN
+          {[k |-> "opout", ins |-> <<p>>, out |-> a] : p \in Operands(x), a \in {b \in HeldA(x) : x.arr[b].w}}
+          \cup {[k |-> "opout", ins |-> <<p, q>>, out |-> a] : p \in Operands(x), q \in Operands(x),
+                                                               a \in {b \in HeldA(x) : x.arr[b].w}} ELSE {})
+  \cup (IF "failout" \in Alphabet /\ Room(x, 0, 2, 0) THEN
+          {[k |-> "fail", ins |-> <<p, q>>, badout |-> TRUE] : p \in Operands(x), q \in Operands(x)} ELSE {})
   \cup (IF "view" \in Alphabet /\ Room(x, 1, 1, 1) THEN {[k |-> "view", t |-> t] : t \in HeldT(x)} ELSE {})
   \cup (IF "fail" \in Alphabet /\ Room(x, 0, 2, 0) THEN
           {[k |-> "fail", ins |-> <<p, q>>] : p \in Operands(x), q \in Operands(x)} ELSE {})
